@@ -121,3 +121,20 @@ def inflOf (fam : String) (nodes : List Node) (nbrs : Node → List Node) (u : N
   if fam = "twohop" then twoHop nodes nbrs u else nodes.filter fun v => (nbrs u).contains v
 
 end ComplexFam
+
+namespace ComplexFam
+/-- family "sei": S → I → R where status `I` plays the role of *exposed* (not infectious) and `R` of *infectious*
+(absorbing); its influence set depends on the changing node's own **new** status.  Other families as above. -/
+def rateOf2 (fam : String) (nodes : List Node) (nbrs : Node → List Node) (tau gamma : Rat) (k : Nat) (st : Node → St) (u : Node) : Rat :=
+  if fam = "sei" then
+    match st u with
+    | St.S => tau * (((nbrs u).filter fun v => st v = St.R).length : Rat)
+    | St.I => gamma
+    | St.R => 0
+  else rateOf fam nodes nbrs tau gamma k st u
+
+/-- `get_influence_set(G, node, status, parameters)` evaluated on the statuses it is given (the new ones) -/
+def inflOf2 (fam : String) (nodes : List Node) (nbrs : Node → List Node) (st : Node → St) (u : Node) : List Node :=
+  if fam = "sei" then (if st u = St.R then nodes.filter fun v => (nbrs u).contains v else [])
+  else inflOf fam nodes nbrs u
+end ComplexFam
